@@ -690,6 +690,12 @@ class CallMixin:
         rec = CbCall.mk_cb(to_val(vs[0]), n, *vals)
         return [Res(p, VBool(self._cblog(p) == z3.Concat(old, z3.Unit(rec))))]
 
+    def sp_pos_of(self, node, p, fc):
+        """pos_of(keys, k): position of key k in the enumeration being iterated"""
+        ks = self.ev(node.args[0], p, fc)[0].v
+        k = self.ev(node.args[1], p, fc)[0].v
+        return [Res(p, VInt(ks.pos(as_int(self.spec_coerce(k)))))]
+
     def sp_fn(self, node, p, fc):
         """fn('qualified.name'): the code of a repo function as stored in timers (t_fn)"""
         return [Res(p, VInt(fn_code(ast.literal_eval(node.args[0]))))]
